@@ -459,6 +459,7 @@ package patch
 //@   ensures error_no_guard: result1 != nil ==> result0 == nil
 //@   ensures unknown_method_rejected: !rt_has_method(originType, methodName) ==> result1 != nil && text_unchanged()
 //@   ensures guard_ready: result1 == nil ==> result0 != nil && guard_wf(result0) && !result0.applied && has(patches, result0.origin) && patches[result0.origin].guard == result0
+//@   ensures targets_the_method: result1 == nil ==> is_target_of(result0.origin, rt_method_func(originType, methodName))
 //@   ensures jump_through_replacement_funcvalue: result1 == nil ==> x86_is_movabs_rdx_jmp(result0.jumpBytes, 1) && x86_movabs_rdx_imm(result0.jumpBytes, 1) == bytecode.funcvalue_word(value_of(replacement))
 //@   ensures gc_anchor: result1 == nil ==> patches[result0.origin].replacementValue == value_of(replacement)
 //@   ensures captured_text: result1 == nil ==> window_is(result0.origin, result0.originBytes)
